@@ -230,6 +230,19 @@ Proof.
   eapply state_eq_trans; [apply (views_le _ _ _ D2 Le In)|exact E].
 Qed.
 
+(* every blob named by a committed root is in the database, then and ever after: the storage
+   trie, the code and the delegation list of every account of the committed account trie
+   (what the per-object dirty flags dirtyCode / dirtyDlgs / the dirty set are there for) *)
+Lemma committed_blobs d s l1 de l2 : DbOk d -> Inv d s ->
+  let c := commit (fst (crun (d, s) l1)) de (snd (crun (d, s) l1)) in
+  forall a x, find (ac_trie (s_acc (snd c))) a = Some x -> Resolved (fst (crun c l2)) x.
+Proof.
+  intros D I. cbn zeta. destruct (crun_inv l1 (d, s) D I) as (D1 & I1).
+  destruct (commit_spec _ de _ D1 I1) as (D2 & _ & I2 & _ & _ & _ & In & _).
+  intros a x Hx. eapply resolved_le; [apply (crun_le l2 _ D2 I2)|].
+  apply (ia_res_trie _ _ (inv_a _ _ In) a x); [exact Hx|reflexivity].
+Qed.
+
 (* ---- the Database's trie cache is transparent ------------------------------------------------------- *)
 (* a hit is a live trie that hashes to the requested root ... *)
 Lemma cache_acct_sound hs c r t : cache_acct hs c r = Some t ->
